@@ -91,19 +91,26 @@ def solo(bundle):
     raise core.HarnessError("solo process failed: %s %s" % (p.stdout[-2000:], p.stderr[-2000:]))
 
 
-def gen_bundle(c, index):
-    sub = c.maybe(40)
-    schema, plan = c01.build_schema(c, {"subscription": sub, "max_objects": 3})
+def gen_bundle(c, index, clone_of=None):
+    if clone_of is not None:
+        # same SDL text as another bundle (different behaviour and data)
+        schema, plan = copy.deepcopy(clone_of["schema"]), copy.deepcopy(clone_of["plan"])
+        sub = bool(schema["roots"].get("subscription"))
+    else:
+        sub = c.maybe(40)
+        schema, plan = c01.build_schema(c, {"subscription": sub, "max_objects": 3})
+        plan["sdl_ext_dirs"] = c.maybe(50)
+    plan["directive_tag"] = "B%d" % index
     plan["default_fields"] = [] if sub else plan["default_fields"]
     requests = []
-    for _ in range(2):
+    for _ in range(3):
         spec, _ = c01.build_request(c, schema, plan, {"max_nodes": 8, "op_types": ["query"]})
         tree, ex, expected, root = c01.reference(spec, c)
         requests.append({"doc": spec["doc"], "op": spec["op"], "variables": spec["variables"], "tree": spec["tree"], "root": root})
     subs = []
     if sub:
         s = c14.build_request(c, schema, plan)
-        subs.append({k: s[k] for k in ("schema", "doc", "op", "variables", "tree", "events", "faults")})
+        subs.append({k: s[k] for k in ("schema", "doc", "op", "variables", "tree", "events", "faults", "decoy")})
     return {"schema": schema, "plan": plan, "requests": requests, "subscriptions": subs, "engine_kwargs": {}}
 
 
@@ -139,7 +146,7 @@ def run_scenario(spec):
                 from tartiflette import create_engine
                 from tfv.model import print_sdl
 
-                h.sdl = print_sdl(b["schema"])
+                h.sdl = print_sdl(b["schema"], ext_dirs=bool(b["plan"].get("sdl_ext_dirs")))
                 kw = dict(b.get("engine_kwargs", {}))
                 if b["plan"].get("custom_default_resolver"):
                     kw["custom_default_resolver"] = h.custom_default_resolver
@@ -147,7 +154,10 @@ def run_scenario(spec):
                     kw["custom_default_type_resolver"] = h.make_type_resolver("engine")
                 h.engine = await create_engine(h.sdl, schema_name=h.name, **kw)
 
-            run_async(cook())
+            try:
+                run_async(cook())
+            except Exception as e:  # noqa
+                raise Violation(spec, "bundle %d (schema name b%d) cannot be cooked next to the others (%r) although it builds alone in a fresh process\norder=%r\nSDL:\n%s" % (i, i, e, spec["order"], hs[i].sdl), tag="cook")
             cooked[i] = True
     assert all(cooked)
     for i, (h, b) in enumerate(zip(hs, bundles)):
@@ -168,7 +178,9 @@ def interleaved(order):
 
 def case(c, stats):
     n = c.int(2, 4)
-    bundles = [gen_bundle(c, i) for i in range(n)]
+    bundles = []
+    for i in range(n):
+        bundles.append(gen_bundle(c, i, clone_of=bundles[c.int(0, i - 1)] if i and c.maybe(35) else None))
     # interleaving of registration + cook steps
     clean_registry()
     counts = [len(make_harness(b, "probe%d" % i).registration_steps()) for i, b in enumerate(bundles)]
@@ -189,7 +201,7 @@ def case(c, stats):
     run_scenario(spec)
     nt = overlapping_names(bundles) > 0 and interleaved([tuple(x) for x in order])
     stats.case({"b": [(b["schema"], b["plan"]) for b in bundles], "o": order}, nt,
-               ["bundles:%d" % n, "with_subscription:%d" % sum(1 for b in bundles if b["subscriptions"]), "redefined_names:%d" % min(overlapping_names(bundles), 9)],
+               ["bundles:%d" % n, "identical_sdl:%s" % (len({canon(b["schema"]) for b in bundles}) < n), "with_subscription:%d" % sum(1 for b in bundles if b["subscriptions"]), "redefined_names:%d" % min(overlapping_names(bundles), 9)],
                {"bundles": [{"types": list(b["schema"]["types"]), "probes": len(b["requests"]) + 1 + len(b["subscriptions"])} for b in bundles], "order": order})
 
 
